@@ -193,6 +193,17 @@ def lines_of(cases, variant):
     return [sl.case_line(c["id"], c["rs"], c["inputs"], c["flags"], c["timeout"], MAXM, c["ops"], variant) for c in cases]
 
 
+def corpus_lines(pid):
+    """minimal reproducers of the findings made with this check (replayed on every run: they must stay fixed)"""
+    import json
+    d = os.path.join(core.VERIF, "corpus", pid)
+    out = []
+    for f in sorted(os.listdir(d)) if os.path.isdir(d) else []:
+        if f.endswith(".json"):
+            out.append(json.load(open(os.path.join(d, f)))["case"])
+    return out
+
+
 def classify(line, main, ref):
     """what kind of history produced a main/ref difference (used only to match known-finding signatures)"""
     ops = dict(t.split("=", 1) for t in line.split()[1:] if "=" in t)["ops"].split(";")
@@ -232,7 +243,7 @@ def run(tier, replay=None):
                     extra.append(dict(c, id="%sp%d" % (c["id"], k), ops=c["ops"][:k]))
         cases += extra
         sl.describe(b["h_hist"], [c["rs"] for c in cases], core)
-        lines = lines_of(cases, variant)
+        lines = corpus_lines("C10") + lines_of(cases, variant)
     impl, rc, err = core.run_parallel([b["h_hist"]], lines)
     if rc != 0 or len(impl) != len(lines):
         chk.violation("harness_crash.json", {"kind": "harness-crash-or-sanitizer", "rc": rc, "stderr": err, "engine": "hist",
